@@ -141,17 +141,21 @@ func vfGoID() int64 {
 
 // vfGoState returns the wait status of goroutine id ("" if it does not
 // exist), its stack, and the complete dump.
+var vfDumpPool = sync.Pool{New: func() any { b := make([]byte, 256<<10); return &b }}
+
 func vfGoState(id int64) (status, stack, dump string) {
-	buf := make([]byte, 1<<20)
+	bp := vfDumpPool.Get().(*[]byte)
+	buf := *bp
 	for {
 		n := runtime.Stack(buf, true)
 		if n < len(buf) {
-			buf = buf[:n]
+			dump = string(buf[:n])
 			break
 		}
 		buf = make([]byte, 2*len(buf))
 	}
-	dump = string(buf)
+	*bp = buf
+	vfDumpPool.Put(bp)
 	hdr := fmt.Sprintf("goroutine %d [", id)
 	for _, g := range strings.Split(dump, "\n\n") {
 		if strings.HasPrefix(g, hdr) {
@@ -636,9 +640,10 @@ func (e *vfEnv) stepOne(a vfAct) (out vfStepOut, stop, skip bool, err error) {
 			out.Act.RR = b
 		}
 	}
-	// goroutines that were waiting for the mutex may have got it
+	// goroutines that were waiting for the mutex may have got it (only
+	// if the goroutine that moved is the one that held it)
 	for _, x := range e.ws {
-		if x != w && x.waiting {
+		if x != w && x.waiting && (e.holder == w.t || e.holder <= 0) {
 			if err := e.settle(x, &out); err != nil {
 				return out, true, false, err
 			}
